@@ -16,8 +16,8 @@ REGISTRY = {
     'C14': ['coro_mutex', 'guards'],
     'C15': ['shared_mutex', 'coro_mutex', 'guards'],
     'C16': ['event', 'base_core'],
-    'C17': ['fault_sched'],
-    'C18': ['fiber_locks'],
+    'C17': ['fault_sched', 'sleep_map'],
+    'C18': ['fiber_locks', 'sleep_map'],
     'C19': ['atomic'],
     'C20': ['alloc'],
 }
